@@ -27,7 +27,7 @@ RULE = ('well-formed images of ten formats built from layouts with the declared 
         'virtual_size sampled after every chunk. Also streams without the size structure (truncated before it, VMDK '
         'text descriptors, non-primary ISO descriptors). non-trivial = declared size != 0 or a no-structure stream; '
         'distinct by (stream digest, schedule digest)')
-REQUIRED_CLAUSES = ['size-under-carrier-and-constructor-options', 'final-size', 'prefix-before-lo-is-0', 'prefix-after-hi-is-declared', 'prefix-between-0-or-declared',
+REQUIRED_CLAUSES = ['accessor-results-owned-by-caller', 'size-under-carrier-and-constructor-options', 'final-size', 'prefix-before-lo-is-0', 'prefix-after-hi-is-declared', 'prefix-between-0-or-declared',
                     'no-structure-stays-0', 'wrapper-final-size']
 ASSUMPTIONS = ['the generator writes layouts from the public format descriptions (no qemu-img available to cross-check)']
 INTERPRETER_FLAGS = [[], ['-O'], [], ['-bb']]
@@ -104,6 +104,33 @@ def eval_case(ctx, case):
         if state['bad']:
             ctx.fail(state['bad'][0], detail_case, {'pos': state['bad'][1], 'got': state['bad'][2],
                                                      'declared': declared, 'lo': lo, 'hi': hi, 'format': spec['gen']})
+        if not res['raised'] and final == declared:
+            # what the inspector's read-only accessors (properties) hand out belongs to the caller: editing a returned
+            # dict / list in place does not change the size reported afterwards
+            edited = []
+            for attr in dir(type(insp)):
+                if attr.startswith('_') or not isinstance(getattr(type(insp), attr, None), property):
+                    continue
+                try:
+                    v = getattr(insp, attr)
+                except BaseException:  # noqa
+                    continue
+                if isinstance(v, dict) and v:
+                    for k in list(v):
+                        v[k] = (v[k] * 512 + 1) if isinstance(v[k], int) and not isinstance(v[k], bool) else None
+                    edited.append(attr)
+                elif isinstance(v, list) and v:
+                    del v[:]
+                    edited.append(attr)
+            if edited:
+                ctx.clause('accessor-results-owned-by-caller')
+                try:
+                    final2 = insp.virtual_size
+                except BaseException as e:  # noqa
+                    final2 = 'EXC:' + type(e).__name__
+                if final2 != declared:
+                    ctx.fail('accessor-results-owned-by-caller', detail_case,
+                             {'edited_in_place': edited, 'virtual_size_before': final, 'virtual_size_after': final2})
         if res['raised']:
             ctx.fail('eat_chunk-raised-on-wellformed', detail_case, {'raised': res['raised']})
         elif final != declared:
